@@ -305,6 +305,8 @@ type vScenario struct {
 	Side   string          `json:"side"` // client | server
 	Gated  bool            `json:"gated"`
 	Faults map[string]string `json:"faults"` // auto mode: write number (after the handshake) -> outcome
+	// Stubborn: handlers notice the cancellation of their request but keep running until the script lets them return
+	Stubborn bool `json:"stubborn,omitempty"`
 	// SlowProgressMs: every progress notification spends that long (virtual ms) inside the transport's Write
 	SlowProgressMs int `json:"slowprogress,omitempty"`
 	Steps  [][]any         `json:"steps"`
@@ -439,17 +441,24 @@ func (r *vRun) gate(tag string) chan struct{} {
 // scripted handler body shared by all incoming requests
 func (r *vRun) handle(ctx context.Context, tag, method string) error {
 	r.log.emit("h.start", "r", tag, "method", method)
+	done := ctx.Done()
 	for {
 		select {
 		case <-r.gate(tag):
 			r.log.emit("h.end", "r", tag, "outcome", "ok")
 			return nil
-		case <-ctx.Done():
+		case <-done:
 			cause := ""
 			if c := context.Cause(ctx); c != nil {
 				cause = c.Error()
 			}
 			r.log.emit("h.ctxdone", "r", tag, "cause", cause)
+			if r.sc.Stubborn {
+				// a handler that notices the cancellation but goes on until it is told to return
+				// (it may still call the peer): handlers are not obliged to stop at once
+				done = nil
+				continue
+			}
 			r.log.emit("h.end", "r", tag, "outcome", "ctx")
 			return ctx.Err()
 		case k := <-r.cmdCh(tag):
@@ -469,7 +478,7 @@ func (r *vRun) handle(ctx context.Context, tag, method string) error {
 				abandon()
 				r.log.emit("h.end", "r", tag, "outcome", "ok")
 				return nil
-			case <-ctx.Done():
+			case <-done:
 				cause := ""
 				if c := context.Cause(ctx); c != nil {
 					cause = c.Error()
@@ -508,6 +517,22 @@ func (r *vRun) transport() Transport {
 		return &LoggingTransport{Transport: r.conn, Writer: io.Discard}
 	}
 	return r.conn
+}
+
+// pingMW logs the handling of a scripted `ping` request (tag in _meta) like the handling of any other call:
+// the SDK answers pings itself, but it must do so in its turn, through the ordinary dispatch.
+func (r *vRun) pingMW(next MethodHandler) MethodHandler {
+	return func(ctx context.Context, method string, req Request) (Result, error) {
+		if method == "ping" && req.GetParams() != nil {
+			if tag, _ := req.GetParams().GetMeta()["vtag"].(string); tag != "" {
+				r.log.emit("h.start", "r", tag, "method", method)
+				res, err := next(ctx, method, req)
+				r.log.emit("h.end", "r", tag, "outcome", "ok")
+				return res, err
+			}
+		}
+		return next(ctx, method, req)
+	}
 }
 
 func (r *vRun) setup(ctx context.Context) error {
@@ -560,6 +585,7 @@ func (r *vRun) setup(ctx context.Context) error {
 				prog(req.Params.Message, ctx)
 			},
 		})
+		r.cl.AddReceivingMiddleware(r.pingMW)
 		errc := make(chan error, 1)
 		go func() {
 			cs, err := r.cl.Connect(ctx, r.transport(), &ClientSessionOptions{ProtocolVersion: "2025-06-18"})
@@ -610,6 +636,7 @@ func (r *vRun) setup(ctx context.Context) error {
 				return next(ctx, method, req)
 			}
 		})
+		r.srv.AddReceivingMiddleware(r.pingMW)
 		ss, err := r.srv.Connect(ctx, r.transport(), nil)
 		if err != nil {
 			return err
@@ -827,8 +854,11 @@ func (r *vRun) step(st []any) {
 		if op == "reqdup" {
 			kind = "call"
 		}
-		if n, err := strconv.Atoi(strings.TrimLeft(tag, "rdns")); err == nil {
+		if n, err := strconv.Atoi(strings.TrimLeft(tag, "rdnsp")); err == nil {
 			wid = int64(n)
+			if strings.HasPrefix(tag, "p") {
+				wid += 7000 // p<i>: a ping request; its own id range
+			}
 		} else {
 			r.nextReq++
 			wid = 5100 + r.nextReq
@@ -839,17 +869,20 @@ func (r *vRun) step(st []any) {
 		if strID {
 			idText = strconv.Quote(idText)
 		}
-		if kind == "call" {
+		if kind == "call" || kind == "ping" {
 			r.reqID[tag] = idText
 		}
 		r.mu.Unlock()
 		var msg *jsonrpc.Request
-		if kind == "call" {
+		if kind == "call" || kind == "ping" {
 			id, _ := jsonrpc2.MakeID(float64(wid))
 			if strID {
 				id, _ = jsonrpc2.MakeID(fmt.Sprint(wid))
 			}
-			if r.cs != nil {
+			if kind == "ping" {
+				// answered by the SDK itself (no scripted handler, never gated); logged as a call
+				msg = &jsonrpc.Request{ID: id, Method: "ping", Params: json.RawMessage(`{"_meta":{"vtag":"` + tag + `"}}`)}
+			} else if r.cs != nil {
 				msg = &jsonrpc.Request{ID: id, Method: "sampling/createMessage", Params: json.RawMessage(
 					`{"messages":[{"role":"user","content":{"type":"text","text":"hi"}}],"maxTokens":5,"systemPrompt":"` + tag + `"}`)}
 			} else {
@@ -860,7 +893,11 @@ func (r *vRun) step(st []any) {
 			msg = &jsonrpc.Request{Method: "notifications/progress", Params: json.RawMessage(`{"progressToken":"tok","progress":1,"message":"` + tag + `"}`)}
 			r.log.emit("rd.deliver", "kind", "notif", "id", "", "r", tag, "dup", false)
 		}
-		r.conn.rd <- vRead{msg: msg, desc: []any{"kind", kind, "k", "", "r", tag}}
+		dkind := kind
+		if dkind == "ping" {
+			dkind = "call"
+		}
+		r.conn.rd <- vRead{msg: msg, desc: []any{"kind", dkind, "k", "", "r", tag}}
 	case "listen":
 		// server side: a subscriptions/listen call as a legacy peer may send it (no _meta). The SDK's own handler parks
 		// until the request is cancelled; ServerSession.Close has to cancel it. Not a scripted handler: no h.* lines.
@@ -1271,7 +1308,7 @@ func vRandomScenario(rnd *rand.Rand, i int) *vScenario {
 	if rnd.IntN(8) == 0 {
 		sc.Logging = true
 	}
-	listens, bads, sreqs := 0, 0, 0
+	listens, bads, sreqs, pings := 0, 0, 0, 0
 	for len(sc.Steps) < n {
 		if bads < 2 && rnd.IntN(24) == 0 {
 			bads++
@@ -1283,7 +1320,13 @@ func vRandomScenario(rnd *rand.Rand, i int) *vScenario {
 			sc.Steps = append(sc.Steps, []any{"listen", fmt.Sprintf("L%d", listens)})
 			continue
 		}
-		switch k := rnd.IntN(27); {
+		switch k := rnd.IntN(28); {
+		case k == 27:
+			// the peer pings: answered by the SDK itself, in its turn
+			if pings < 2 {
+				pings++
+				sc.Steps = append(sc.Steps, []any{"req", fmt.Sprintf("p%d", pings), "ping"})
+			}
 		case k == 26:
 			// a running handler calls the peer itself (nested call with the handler's context)
 			if len(liveReqs) > 0 && calls < 3 {
